@@ -168,7 +168,7 @@ pub fn rt_parse(rt: &Rt, input: &str) -> CtOut {
                             }
                         }
                     }
-                    s.push(']');
+                    s.push_str("]$");
                     if mode == "log" {
                         prm.log.borrow_mut().push(s.clone());
                     }
